@@ -173,7 +173,8 @@ def precedes(a, r, u):
     """site r is executed before site u within one pass (back edges cut) and never after it"""
     if r[0] == u[0]:
         return r[1] < u[1]
-    after = a.cfg.reach(list(a.cfg.succ[u[0]]), cut_edges=set(a.cfg.back_edges()))
+    be = set(a.cfg.back_edges())
+    after = a.cfg.reach([s_ for s_ in a.cfg.succ[u[0]] if (u[0], s_) not in be], cut_edges=be)
     return r[0] not in after
 
 
